@@ -4,6 +4,6 @@ here=$(cd "$(dirname "$0")/.." && pwd)
 cd $here
 seeds="$@"; [ -z "$seeds" ] && seeds=$(ls seeded)
 for s in $seeds; do
-  p=${s%%-*}; [ "$s" = "C03-e" ] && p=C06; [ "$s" = "C08-e" ] && p=C06; [ "$s" = "C11-e" ] && p=C03; [ "$s" = "C01-f" ] && p=C09   # (a merge defect filed under C03 by its author: C06 is the property that covers it)
+  p=${s%%-*}; [ "$s" = "C03-e" ] && p=C06; [ "$s" = "C08-e" ] && p=C06; [ "$s" = "C11-e" ] && p=C03; [ "$s" = "C01-f" ] && p=C09; [ "$s" = "C07-g" ] && p=C01   # (a merge defect filed under C03 by its author: C06 is the property that covers it)
   ./seedtest.sh $s $p 2>&1 | tail -1
 done
